@@ -194,29 +194,42 @@ theorem float_token_is_parseF64 (ext : Char → CharInfo) (st : St) (w : List Ch
 
 `DecFloat.parseF64` was documented by a grammar in a comment and proved only in its arithmetic half (`decToF64` rounds
 correctly). `Spec/FloatGrammar.lean` now formalises the grammar of Rust's `impl FromStr for f64` as inductive predicates
-with a denotation (`FloatGrammar.FloatD text v`), and `Lemmas/FloatGrammar.lean` proves `parseF64` sound and complete
-for it. (One known deviation from Rust, for texts of more than 65 536 digits only: Rust stops accumulating exponent
-digits at `0x10000`; see the header of `Lemmas/FloatGrammar.lean`.) -/
+with a denotation, and `Lemmas/FloatGrammar.lean` proves `parseF64` sound and complete for it. The grammar has two
+readings of the exponent digits: `FloatGrammar.FloatD text v` — the documented grammar, every digit string by its
+mathematical value — and `FloatGrammar.FloatR text v` — what Rust computes: `dec2flt::parse::parse_scientific` stops
+accumulating exponent digits once the accumulated magnitude has reached `0x10000` (observation N3 of DESIGN.md), and so
+does the model (`DecFloat.capDigitsVal`). The two agree on every text whose exponent digits' value is below 65 536
+(`FloatGrammar.ExpSmall`, decidable on the text); they differ observably only from ≈ 65 230 mantissa digits on
+(`DecFloat.capped_exponent_witness`: `0.` + 65 299 zeros + `1e655360` is read as 1e236, not inf). SQL number tokens have
+no exponent at all (`DecFloat.expSmall_of_no_e`). -/
 
 /-- **from_str_grammar.** `DecFloat.parseF64 s` answers `Ok(b)` exactly when `s` is a `Float` of the grammar
 `Sign? ( 'inf' | 'infinity' | 'nan' | (Digit+ | Digit+ '.' Digit* | Digit* '.' Digit+) ('e' Sign? Digit+)? )` (words and
 `e` in any letter case) and `b` is the REAL of one of its denotations (`DecFloat.bitsOf`: the decimal
 `(-1)^neg · mant · 10^exp` rounded to nearest, ties to even, `inf` from the overflow threshold on; the infinities; Rust's
-NaN), and `Err` exactly when the grammar does not derive `s`; the REAL is a function of the text. -/
+NaN) — with Rust's reading of the exponent (`FloatR`) for every text, and with the documented reading (`FloatD`, the
+mathematical value of the exponent digits) for every text whose exponent digits' value is below 65 536 (`ExpSmall`); and
+`Err` exactly when the grammar does not derive `s` (for every text); the REAL is a function of the text. -/
 theorem from_str_grammar (s : List Char) :
-    (∀ b, DecFloat.parseF64 s = some b ↔ ∃ v, FloatGrammar.FloatD s v ∧ DecFloat.bitsOf v = b) ∧
+    (∀ b, DecFloat.parseF64 s = some b ↔ ∃ v, FloatGrammar.FloatR s v ∧ DecFloat.bitsOf v = b) ∧
     (DecFloat.parseF64 s = none ↔ ¬ ∃ v, FloatGrammar.FloatD s v) ∧
-    (∀ v v', FloatGrammar.FloatD s v → FloatGrammar.FloatD s v' → DecFloat.bitsOf v = DecFloat.bitsOf v') :=
-  ⟨DecFloat.parseF64_iff s, DecFloat.parseF64_none_iff s, fun _ _ h h' => DecFloat.FloatD.unique_bits h h'⟩
+    (∀ v v', FloatGrammar.FloatR s v → FloatGrammar.FloatR s v' → DecFloat.bitsOf v = DecFloat.bitsOf v') ∧
+    (FloatGrammar.ExpSmall s →
+      (∀ v, FloatGrammar.FloatR s v ↔ FloatGrammar.FloatD s v) ∧
+      (∀ b, DecFloat.parseF64 s = some b ↔ ∃ v, FloatGrammar.FloatD s v ∧ DecFloat.bitsOf v = b)) :=
+  ⟨DecFloat.parseF64_iff_rust s, DecFloat.parseF64_none_iff s, fun _ _ h h' => DecFloat.FloatR.unique_bits h h',
+   fun hs => ⟨DecFloat.floatR_iff_floatD hs, DecFloat.parseF64_iff hs⟩⟩
 
 /-- the REAL token of a number text with a fraction, by the grammar: the text of a `Float` becomes the token carrying the
-REAL of its denotation, any other text (`1.2e`, `1.e+`) is the located error `floatConvert` -/
-theorem float_token_by_grammar (ext : Char → CharInfo) (st : St) (w : List Char) :
+REAL of its denotation, any other text (`1.2e`, `1.e+`) is the located error `floatConvert`. (`ExpSmall w`: the exponent
+digits' value is below 65 536 — true of every number token of the tokenizer, which has no exponent:
+`DecFloat.expSmall_of_no_e`.) -/
+theorem float_token_by_grammar (ext : Char → CharInfo) (st : St) (w : List Char) (hs : FloatGrammar.ExpSmall w) :
     (∀ v, FloatGrammar.FloatD w v → flushNumber (noNumberFacts ext) st w true = .run (st.add (.float (DecFloat.bitsOf v)))) ∧
     ((¬ ∃ v, FloatGrammar.FloatD w v) → flushNumber (noNumberFacts ext) st w true = .fail ⟨st.line, st.col⟩ .floatConvert) := by
   constructor
   · intro v hv
-    rw [float_token_is_parseF64, (DecFloat.parseF64_iff w _).2 ⟨v, hv, rfl⟩]
+    rw [float_token_is_parseF64, (DecFloat.parseF64_iff hs _).2 ⟨v, hv, rfl⟩]
   · intro hn
     rw [float_token_is_parseF64, (DecFloat.parseF64_none_iff w).2 hn]
 
@@ -250,14 +263,14 @@ example : extractNear Tables.asciiOnly ⟨0, 3⟩ "ab\tcd ef".toList = .text "ab
 `5 · 10^0`, `iNf` is the infinity -/
 example : FloatGrammar.FloatD "-12.50e+3".toList (.dec true 1250 1) :=
   .number (sg := ['-']) (body := "12.50e+3".toList) .minus
-    (FloatGrammar.NumberD.point (ip := ['1', '2']) (fp := ['5', '0']) (e := ['e', '+', '3']) (ev := 3) (by decide) (by decide)
-      (Or.inl (by decide)) (FloatGrammar.ExpD.some (sg := ['+']) (ds := ['3']) (neg := false) (Or.inl rfl) .plus (by decide)))
+    (FloatGrammar.NumberDV.point (ip := ['1', '2']) (fp := ['5', '0']) (e := ['e', '+', '3']) (ev := 3) (by decide) (by decide)
+      (Or.inl (by decide)) (FloatGrammar.ExpDV.some (sg := ['+']) (ds := ['3']) (neg := false) (Or.inl rfl) .plus (by decide)))
 example : FloatGrammar.FloatD ".5".toList (.dec false 5 (-1)) :=
   .number (sg := []) (body := ".5".toList) .none
-    (FloatGrammar.NumberD.point (ip := []) (fp := ['5']) (e := []) (ev := 0) (by decide) (by decide) (Or.inr (by decide)) .none)
+    (FloatGrammar.NumberDV.point (ip := []) (fp := ['5']) (e := []) (ev := 0) (by decide) (by decide) (Or.inr (by decide)) .none)
 example : FloatGrammar.FloatD "5.".toList (.dec false 5 0) :=
   .number (sg := []) (body := "5.".toList) .none
-    (FloatGrammar.NumberD.point (ip := ['5']) (fp := []) (e := []) (ev := 0) (by decide) (by decide) (Or.inl (by decide)) .none)
+    (FloatGrammar.NumberDV.point (ip := ['5']) (fp := []) (e := []) (ev := 0) (by decide) (by decide) (Or.inl (by decide)) .none)
 example : FloatGrammar.FloatD "+iNf".toList (.inf false) :=
   .inf (sg := ['+']) (w := "iNf".toList) .plus
     (.cons (Or.inl rfl) (.cons (Or.inr rfl) (.cons (Or.inl rfl) .nil)))
@@ -275,5 +288,12 @@ example : DecFloat.parseF64 "".toList = none ∧ DecFloat.parseF64 "-".toList = 
     ∧ DecFloat.parseF64 "+-1".toList = none ∧ DecFloat.parseF64 "1.2.3".toList = none ∧ DecFloat.parseF64 "１".toList = none := by
   decide +kernel
 example : ¬ ∃ v, FloatGrammar.FloatD "1e+".toList v := (from_str_grammar _).2.1.1 (by decide +kernel)
+-- the hypothesis `ExpSmall` of the documented-grammar half holds for the texts above and fails from `e65536` on; the
+-- witness of the cap, for every number `n` of zeros: Rust's exponent is 65 536, the documented one 655 360
+example : FloatGrammar.ExpSmall "-12.50e+3".toList ∧ FloatGrammar.ExpSmall "1e400".toList ∧ FloatGrammar.ExpSmall "5.".toList
+    ∧ FloatGrammar.ExpSmall "1e65535".toList ∧ ¬ FloatGrammar.ExpSmall "1e65536".toList := by decide
+example (n : Nat) : DecFloat.parseF64 (DecFloat.capWitness n) = some (DecFloat.decToF64 false 1 (65536 - ((n + 1 : Nat) : Int)))
+    ∧ FloatGrammar.FloatD (DecFloat.capWitness n) (.dec false 1 (655360 - ((n + 1 : Nat) : Int))) :=
+  ⟨(DecFloat.capped_exponent_witness n).1, (DecFloat.capped_exponent_witness n).2.1⟩
 
 end Sqlgrep.Props.C14Lex
